@@ -3,6 +3,8 @@ CONSTANTS
   NV = 2
   StabV = {}
   HasHf = FALSE
+  Absent0 = {}
+  Admin = FALSE
   Cmds = {"reset", "force_reset"}
   Rewrites = TRUE
   NP = 2
